@@ -62,7 +62,7 @@ CHECKS.update({
              note=EXEC_NOTE + "; traceback.TracebackException frame/line semantics modelled; KDeep excluded", technique="Coq proof (chain-instrumented specification, simulation sim3_all by induction on fuel) + vm_compute correspondence of full tracebacks + executing-chain oracle", design="6/C17"),
  "C03": dict(text="Coq proof that for every sequence of space/base/member edits the model's members equal the from-scratch re-derivation along the C3 order (plus name uniqueness, the C3 laws "
                   "and evaluation in the sub space), model tied to /repo after every operation by vm_compute correspondence on random and exhaustive small ordered-base DAGs. The pinned tree "
-                  "deviates on D1 D2 D2b D3 D33 D34 (D23): recorded findings, triggers avoided, witnesses replayed.",
+                  "deviates on D1 D2 D2b D3 D34 (D23): recorded findings, triggers avoided, witnesses replayed (D33 repaired in /repo).",
              note="trusted: Coq kernel + vm_compute, harness generator/emitter/driver, Defs/Check.v; modelled not verified: networkx (DAG test, traversal order), CPython; flat spaces, integer refs, "
                   "lambda:<int|refname> formulas; on_inherit idealised to read only defined members; outside: rename, nesting, dynamic spaces, is_cached/allow_none/refmode, value cache",
              technique="Coq refinement proof (induction over fold_left step; C3 by fuel induction) + vm_compute correspondence + Coq rederive oracle + Python frame oracle", design="6/C03"),
@@ -88,13 +88,13 @@ CHECKS.update({
                   "specs are exactly those whose value is bound by a reference of an open model; rejected creations change nothing; no two specs share a location; _check_sanity assertions are "
                   "invariants. Tied to modelx on every run by replaying generated histories and comparing all spec/reference observables after every operation.",
              note="trusted: Coq kernel + vm_compute, drivers/iospec.py, emitter/oracle in props/C18.py; modelled not verified: object identity as tokens, derived refs recomputed; pandas/openpyxl/importlib "
-                  "file round trip checked on the implementation only; histories avoid triggers of 11 recorded defects, closed models and absolute paths",
+                  "file round trip checked on the implementation only; histories avoid triggers of 9 recorded defects (rebind_same, stale_derived repaired in /repo and generated), closed models and absolute paths",
              technique="Coq invariant induction over fold_left step + vm_compute correspondence + implementation-side oracle + stored defect witnesses", design="6/C18"),
  "C20": dict(text="Coq proof over a line/token-position model of formula.py: normalisation to a canonical text, idempotence, name-only rename, docstring-only set_doc with read-back, lambda "
                   "extraction, for all well-formed structured texts; tied to /repo on every run by evaluating the model on the real texts with asttokens positions, plus a behavioural oracle "
                   "(values, parameters, AST, comments).",
              note="partial: CPython tokenizer/compiler, ast+asttokens positions, textwrap.dedent, inspect.getsource modelled not verified (positions are inputs cross-checked per case); behavioural half "
-                  "rests on the (P) oracle; insert_indents=True, multi-line lambdas, _reload, NULL_FORMULA outside theorems; D10, D30-D36 recorded findings avoided",
+                  "rests on the (P) oracle; insert_indents=True, multi-line lambdas, _reload, NULL_FORMULA outside theorems; D31-D36 recorded findings avoided (D10, D30 repaired in /repo and generated)",
              technique="Coq Gallina model + inductive proofs + vm_compute correspondence on generated structured texts + differential oracle", design="6/C20"),
 })
 CHECKS.update({
@@ -111,8 +111,8 @@ CHECKS.update({
                   "removes exactly one model and rejected operations change nothing; tied to /repo on every run by comparing the registry, every handle's name and the current model after each "
                   "operation of generated histories.",
              note="trusted: Coq kernel + vm_compute; harness (drivers/registry.py, props/C19.py, identity tokens via `is`); modelled not verified: ASCII is_valid_name, read_model = new_model()+rename(rename_old), "
-                  "counters probed via public API; isolation of model contents only by before/after differential on the implementation (no theorem); findings stale_handle, read_missing, "
-                  "read_late_failure avoided and replayed",
+                  "counters probed via public API; isolation of model contents only by before/after differential on the implementation (no theorem); former findings stale_handle, read_missing, "
+                  "read_late_failure repaired in /repo: their triggers are generated, their witnesses replayed",
              technique="Coq induction over fold_left step + fuelled get_next with pigeonhole bound + vm_compute correspondence + isolation differential", design="6/C19"),
 })
 CHECKS.update({
@@ -129,20 +129,20 @@ CHECKS.update({
                   "nesting depths (binding = rebind mode definer target deriver), absolute/outside targets unchanged, chains compose, the incremental state equals from-scratch derivation for all "
                   "histories; tied to /repo on every run by a grid plus random histories evaluated inside Coq and by an identity-based property oracle on the live objects (incl. write/read).",
              note="trusted: Coq kernel + vm_compute, harness (relref driver, c10model trigger mirror); modelled not verified: the C3 order is an observed input (C03), existence of corresponding objects, "
-                  "ItemSpace freshness (C07), serializer internals (round trip observed only); histories avoid the triggers of 10 recorded defects",
+                  "ItemSpace freshness (C07), serializer internals (round trip observed only); histories avoid the triggers of 6 recorded defects (D15 D19 D33 dyn_direct_bases change_ref_is_relative repaired in /repo and generated)",
              technique="Coq refinement to a path-algebra spec (induction over names and edit lists) + vm_compute correspondence + identity/differential oracle", design="6/C10"),
 })
 CHECKS.update({
  "C11": dict(text="Machine-checked proof on a Gallina model of the name-level editing API: every rejected operation returns the identical state (any state, all 13 rejection reasons, incl. exact roll-back "
                   "of new_cells/new_space), and every history leaves the base relation acyclic with a C3 linearisation for every space and only valid identifiers as space and cells names; tied to "
                   "/repo on every run by executing the same histories in Coq and comparing outcome class and name maps after each operation, plus describe-before = describe-after oracle.",
-             note="trusted: Coq kernel + vm_compute, correspondence harness (nameslib.py, drivers/names.py); ideal model: pinned tree deviates on D3 D11 D12 D34 N4 N8 N10 N11 (witnesses replayed, triggers "
+             note="trusted: Coq kernel + vm_compute, correspondence harness (nameslib.py, drivers/names.py); ideal model: /repo deviates on D3 D34 N8 (D11 D12 N4 N10 N11 repaired in /repo and generated) (witnesses replayed, triggers "
                   "avoided); modelled not verified: which source texts are malformed (ast; one bit in the model), C3 from MX.C3; outside: cell values and inputs ((P) only)",
              technique="Coq induction over fold_left step with invariants (tree / closed bases / all-MRO-ok / valid names), C3 commuting with injective relabelling + vm_compute correspondence", design="6/C11"),
  "C12": dict(text="Machine-checked proof that in every reachable state cells, own references (defined or derived) and child spaces of a space are pairwise disjoint, that no operation can break this in any "
                   "sub space, and that dir() and name lookup of spaces and ItemSpaces equal the chained containers with own references before model-level ones and parameters before base references; "
                   "tied to /repo by the same histories with dir(), containers, getattr kinds and the library's self-checks observed after every operation.",
-             note="trusted: as C11; ideal model: pinned tree deviates on D13 D23 N1 N2 N3 N5 N6 N7 N9; modelled not verified: derived members are a view along the C3 order, ItemSpace observed at argument 0 "
+             note="trusted: as C11; ideal model: /repo deviates on D13 D23 N2 N5 N7 (N1 N3 N6 N9 repaired in /repo and generated); modelled not verified: derived members are a view along the C3 order, ItemSpace observed at argument 0 "
                   "only; the lazy-container refresh is exercised by the tie, not modelled",
              technique="Coq name-disjointness invariant by induction with per-operation frame lemmas + vm_compute correspondence + self-check oracle", design="6/C12"),
 })
